@@ -73,6 +73,8 @@ fn mint(cn: &str, san: Option<&str>, ca: bool, issuer: Option<(&X509, &PKey<Priv
 pub struct Pki {
     pub ca_pem: Vec<u8>,
     pub ca_der: Vec<u8>,
+    /// the self-signed leaf certificates themselves (PEM, DER) by (expired, nameOK)
+    pub self_certs: Vec<((bool, bool), Vec<u8>, Vec<u8>)>,
     /// (chain, expired, nameOK) -> port of the TLS listener presenting that certificate
     pub ports: Vec<((String, bool, bool), u16)>,
     pub proxy_port: u16,
@@ -188,6 +190,7 @@ pub fn pki() -> &'static Pki {
         let (ca, ca_key) = mint("verif private CA", None, true, None, false, 1);
         let (ca2, ca2_key) = mint("verif unknown CA", None, true, None, false, 2);
         let mut ports = Vec::new();
+        let mut self_certs = Vec::new();
         let mut serial = 10;
         for chain in ["ca", "self", "unknown"] {
             for expired in [false, true] {
@@ -199,6 +202,9 @@ pub fn pki() -> &'static Pki {
                         "unknown" => mint(san, Some(san), false, Some((&ca2, &ca2_key)), expired, serial),
                         _ => mint(san, Some(san), false, None, expired, serial),
                     };
+                    if chain == "self" {
+                        self_certs.push(((expired, name_ok), cert.to_pem().unwrap(), cert.to_der().unwrap()));
+                    }
                     let mut b = SslAcceptor::mozilla_intermediate_v5(SslMethod::tls()).unwrap();
                     b.set_private_key(&k).unwrap();
                     b.set_certificate(&cert).unwrap();
@@ -216,10 +222,18 @@ pub fn pki() -> &'static Pki {
         let pl = TcpListener::bind("127.0.0.1:0").unwrap();
         let proxy_port = pl.local_addr().unwrap().port();
         std::thread::spawn(move || serve_connect_proxy(pl));
-        Pki { ca_pem: ca.to_pem().unwrap(), ca_der: ca.to_der().unwrap(), ports, proxy_port }
+        Pki { ca_pem: ca.to_pem().unwrap(), ca_der: ca.to_der().unwrap(), self_certs, ports, proxy_port }
     })
 }
 
+#[cfg(not(feature = "rustls-backend"))]
+fn leaf_cert(p: &Pki, expired: bool, name_ok: bool) -> native_tls::Certificate {
+    native_tls::Certificate::from_pem(&p.self_certs.iter().find(|x| x.0 == (expired, name_ok)).unwrap().1).unwrap()
+}
+#[cfg(feature = "rustls-backend")]
+fn leaf_cert(p: &Pki, expired: bool, name_ok: bool) -> rustls::pki_types::CertificateDer<'static> {
+    rustls::pki_types::CertificateDer::from(p.self_certs.iter().find(|x| x.0 == (expired, name_ok)).unwrap().2.clone())
+}
 #[cfg(not(feature = "rustls-backend"))]
 pub fn root_cert(p: &Pki) -> native_tls::Certificate {
     native_tls::Certificate::from_pem(&p.ca_pem).unwrap()
@@ -252,7 +266,9 @@ pub fn run(sc: &Value) -> Vec<String> {
     })));
     let path = gs(sc, "path");
     let scope = gs(sc, "scope");
-    let (certs, hosts, root) = (gb(sc, "certs"), gb(sc, "hosts"), gb(sc, "root"));
+    let (certs, hosts, root) = (gb(sc, "certs"), gb(sc, "hosts"), gb(sc, "root") || gb(sc, "rootIsLeaf"));
+    let leaf = gb(sc, "rootIsLeaf");
+    let the_root = || if leaf { leaf_cert(p, expired, name_ok) } else { root_cert(p) };
     let res = catch_unwind(AssertUnwindSafe(|| {
         let mut session = attohttpc::Session::new();
         let mut ps = attohttpc::ProxySettings::builder();
@@ -280,14 +296,14 @@ pub fn run(sc: &Value) -> Vec<String> {
                 session.danger_accept_invalid_hostnames(true);
             }
             if root {
-                session.add_root_certificate(root_cert(p));
+                session.add_root_certificate(the_root());
             }
         }
         if scope == "sibling" {
             // configured on another request of the same session, which is then sent first
             let mut sib = session.get(&url).danger_accept_invalid_certs(certs).danger_accept_invalid_hostnames(hosts);
             if root {
-                sib = sib.add_root_certificate(root_cert(p));
+                sib = sib.add_root_certificate(the_root());
             }
             let _ = sib.send();
         }
@@ -301,7 +317,7 @@ pub fn run(sc: &Value) -> Vec<String> {
         if scope == "request" {
             rb = rb.danger_accept_invalid_certs(certs).danger_accept_invalid_hostnames(hosts);
             if root {
-                rb = rb.add_root_certificate(root_cert(p));
+                rb = rb.add_root_certificate(the_root());
             }
         }
         rb.send().map(|r| r.status().as_u16())
@@ -312,7 +328,7 @@ pub fn run(sc: &Value) -> Vec<String> {
         Ok(Err(e)) => ("err", crate::exchange::err_kind(&e)),
         Err(pn) => ("panic", panic_msg(&pn)),
     };
-    vec![json!({"ev":"tls","id":gs(sc,"id"),"chain":chain,"expired":expired,"nameOK":name_ok,"certs":certs,"hosts":hosts,"root":root,
+    vec![json!({"ev":"tls","id":gs(sc,"id"),"chain":chain,"expired":expired,"nameOK":name_ok,"certs":certs,"hosts":hosts,"root":gb(sc, "root"),"rootIsLeaf":leaf,
         "path":path,"scope":scope,"res":r,"kind":kind,"backend":backend()})
     .to_string()]
 }
